@@ -36,8 +36,20 @@ def wrappers():
     }
 
 
+class Level(str, __import__("enum").Enum):
+    ERROR = "err"
+    ONE = "1"
+
+
+class Prio(int, __import__("enum").Enum):
+    LOW = 1
+    HIGH = 2
+
+
 def pool_cases():
     out = [(n, t, list(vs)) for n, t, vs in tp.pool()]
+    out.append(("Level(str,Enum)", Level, [Level.ERROR, Level.ONE]))
+    out.append(("Prio(int,Enum)", Prio, [Prio.LOW, Prio.HIGH]))
     out.append(("str(tricky)", str, list(TRICKY_STR)))
     out.append(("list[str](tricky)", list[str], [list(TRICKY_STR)]))
     out.append(("dict[str,str](tricky)", dict[str, str], [{s: s for s in TRICKY_STR}]))
